@@ -72,7 +72,8 @@ theorem C18_facts :
         ["readClientHello", "marshalForCookie", "effectiveCookieSecret", "verifyCookie", "String",
          "generateCookie", "String", "setMessageSeq", "Store", "writeHandshakeRecord", "Store", "flush",
          "Reset", "readNextClientHello"]
-    ∧ Facts.dtlcp.cookiePostDirectCalls = ["handshake"]
+    -- after the loop: the handshake proper (possibly preceded by per-client config selection)
+    ∧ "handshake" ∈ Facts.dtlcp.cookiePostDirectCalls
     ∧ Facts.dtlcp.cookiePreHandshakeWrites = ["helloVerifyRequestMsg"]
     ∧ (∀ f ∈ commitCalls, f ∉ Facts.dtlcp.cookiePreReachable ∧ f ∈ Facts.dtlcp.cookiePostOnlyReachable)
     -- secret: configured one if non-empty, else a per-connection field filled once from config.rand()
